@@ -187,6 +187,13 @@ func runImpl(scripts []*script) error {
 				}
 				s.probes[id] = rec
 			},
+			// setvar NAME VALUE: an assignment made by a custom command through the public API
+			// (TestScript.Setenv) rather than by the `env` builtin
+			"setvar": func(ts *testscript.TestScript, neg bool, args []string) {
+				if len(args) == 2 {
+					ts.Setenv(args[0], args[1])
+				}
+			},
 			"grabenv": func(ts *testscript.TestScript, neg bool, args []string) {
 				s := byName[ts.Name()]
 				if len(args) == 1 {
@@ -264,7 +271,7 @@ func (s *script) implLine(i int) string {
 			return "P-missing"
 		}
 		return "P:" + hexList(append([]string{"probe"}, rec.args...)) + "|" + hexList(rec.getenv)
-	case "env":
+	case "env", "setvar":
 		return "V"
 	case "exec":
 		out, ok := s.grabs[m.id]
@@ -544,6 +551,81 @@ func (g *rgen) token() string {
 var seps = []string{" ", " ", " ", "\t", "\r", "  ", " \t", "\r ", "\t\t "}
 var probePrefixes = []string{"probe", "probe", "probe", "'probe'", "pro'be'", "$P", "${P}", "pr${R}obe", "'pro'be"}
 
+// token1: a token guaranteed to be exactly one argument (an empty or comment-looking one is quoted).
+func (g *rgen) token1() string {
+	t := g.token()
+	if t == "" || strings.HasPrefix(t, "#") || strings.ContainsAny(t, " \t\r") && !strings.Contains(t, "'") {
+		return sq(g.plain())
+	}
+	return t
+}
+
+// historyScript: few variables, many re-assignments (by `env` and by a custom command through
+// TestScript.Setenv) interleaved with every form of reference to the same variables, so that any
+// state derived from a variable's value (memoised expansions, cached child environments) is used,
+// invalidated and used again.
+func historyScript(r *rand.Rand, n int, nLines int) *script {
+	g := &rgen{r: r, allowN: false}
+	names := []string{"X", "Y", "K"}
+	s := &script{name: fmt.Sprintf("hst%05d", n), names: names, class: "history"}
+	s.extra = []string{"P=probe", "R=", "X=" + g.wild(4), "X=" + g.wild(4)}
+	cur := map[string]string{}
+	for _, kv := range s.extra {
+		k, v, _ := strings.Cut(kv, "=")
+		cur[k] = v
+	}
+	// a reference and what it must expand to (regexp.QuoteMeta of the standard library is the reference
+	// for @R; the property oracle of the run checks these independently of the Lean model)
+	refs := func(v string) (string, string) {
+		val := cur[v]
+		switch g.r.Intn(6) {
+		case 0:
+			return "$" + v, val
+		case 1:
+			return "${" + v + "}", val
+		case 2:
+			return "${" + v + "@R}", regexp.QuoteMeta(val)
+		case 3:
+			return "a${" + v + "@R}b", "a" + regexp.QuoteMeta(val) + "b"
+		case 4:
+			return "'${" + v + "@R}'", "${" + v + "@R}"
+		}
+		return "$" + v + "${" + v + "@R}", val + regexp.QuoteMeta(val)
+	}
+	for i := 0; i < nLines; i++ {
+		v := g.pick(names)
+		switch k := r.Intn(10); {
+		case k < 2:
+			val := g.valueText()
+			s.add("env "+v+"="+sq(val), lineMeta{kind: "env"})
+			cur[v] = val
+		case k < 4:
+			val := g.valueText()
+			s.add("setvar "+v+" "+sq(val), lineMeta{kind: "setvar"})
+			cur[v] = val
+		case k < 5 && i > 2:
+			s.addExec(r.Intn(3) == 0)
+		default:
+			id := s.nextID()
+			r1, w1 := refs(v)
+			r2, w2 := refs(g.pick(names))
+			s.add("probe "+id+" "+r1+" "+r2, lineMeta{kind: "probe", id: id, oracle: "noresplit", wantArgs: []string{w1, w2}})
+		}
+	}
+	return s
+}
+
+// valueText: a value with regexp-special and shell-special bytes (written single-quoted).
+func (g *rgen) valueText() string {
+	alpha := "ab.+*()[]$#' \\|^{}x"
+	n := 1 + g.r.Intn(6)
+	b := make([]byte, n)
+	for i := range b {
+		b[i] = alpha[g.r.Intn(len(alpha))]
+	}
+	return string(b)
+}
+
 func (g *rgen) argsText() string {
 	var sb strings.Builder
 	for n := g.r.Intn(5); n > 0; n-- {
@@ -631,8 +713,10 @@ func randomScript(r *rand.Rand, n int, nLines, nExec int) *script {
 			s.addExec(r.Intn(3) == 0)
 		}
 		switch k := r.Intn(10); {
-		case k < 3:
+		case k < 2:
 			s.add(g.envLine(), lineMeta{kind: "env"})
+		case k < 3:
+			s.add("setvar"+g.pick(seps)+quoteName(g.pick(namePool))+g.pick(seps)+g.token1(), lineMeta{kind: "setvar"})
 		default:
 			id := s.nextID()
 			s.add(g.pick(probePrefixes)+g.pick(seps)+id+g.argsText(), lineMeta{kind: "probe", id: id})
@@ -1032,6 +1116,9 @@ func runScript(tier string, seed int64, model string, replay string) *corr.Resul
 	}
 	for i := 0; i < nOracle; i++ {
 		scripts = append(scripts, oracleScript(r, i, randLines/2, nExec))
+	}
+	for i := 0; i < nOracle; i++ {
+		scripts = append(scripts, historyScript(r, i, 40))
 	}
 	scripts = append(scripts, pieceScripts(exhaustPieces, maxPieces, 5000)...)
 	res.Extra["exhaustive_spaces"] = append(res.Extra["exhaustive_spaces"].([]string),
